@@ -9,7 +9,7 @@
   same PRNG words and the same scripted Connector, and compares the event traces.
 
   Not modelled (never happens in the scripted world): context cancellation, `Wake()` by another
-  goroutine, profile swap / `Switch`, migration, packets other than an empty `SvComplete` answer.
+  goroutine, profile swap / a profile whose `Switch` reports a change, migration, packets other than an empty `SvComplete` answer.
 -/
 import XMT.Work
 import XMT.Jitter
@@ -48,6 +48,8 @@ structure St where
   ci : Nat := 0               -- connection attempts so far
   halted : Bool := false      -- a panic unwound the goroutine / fuel ran out
   trace : List Ev := []
+  e : Bool := false           -- `e` of listen: the previous attempt failed (connect error or failed exchange)
+  sw : List Bool := []        -- the arguments `s.p.Switch(e)` was called with, in order
 deriving Repr
 
 /-- `!s.kill.IsZero() && time.Now().After(s.kill)` -/
@@ -107,21 +109,23 @@ def step (c : Cfg) (q : Nat → Nat) (script : Nat → Res) (st : St) : St × Bo
   else
     -- `if s.state.Closing() { … s.peek = &com.Packet{ID: SvShutdown…}; s.state.Set(stateShutdown) … }`
     let st := if st.closing then { st with shutdown := true } else st
+    -- `if s.p.Switch(e) { … }` (the scripted profile never switches)
+    let st := { st with sw := st.sw ++ [st.e] }
     -- `c, err := s.p.Connect(s.ctx, s.host.String())`
     let r := script st.ci
     let st := { st with ci := st.ci + 1, trace := st.trace ++ [.connect st.now st.shutdown r] }
     match r with
     | .fail =>
       if st.closing then (st, false)
-      else if st.errors ≤ maxErrors then ({ st with errors := (st.errors + 1) % 256 }, true)
+      else if st.errors ≤ maxErrors then ({ st with errors := (st.errors + 1) % 256, e := true }, true)
       else (st, false)
     | .sessErr =>
-      let st := { st with errors := (st.errors + 1) % 256 }
+      let st := { st with errors := (st.errors + 1) % 256, e := true }
       if st.errors > maxErrors then (st, false)
       else if st.shutdown then (st, false)
       else (st, true)
     | .ok =>
-      let st := { st with errors := 0 }
+      let st := { st with errors := 0, e := false }
       if st.errors > maxErrors then (st, false)
       else if st.shutdown then (st, false)
       else (st, true)
